@@ -31,6 +31,12 @@ var guardedMaps = map[string]string{
 	"stream.requests":                     "stream.mu",
 	"streamableServerConn.requestStreams": "streamableServerConn.mu",
 	"streamableServerConn.streams":        "streamableServerConn.mu",
+	// slices that are re-sliced / appended under a mutex (a torn slice header is as fatal as a concurrent map write)
+	"Client.sessions":                 "Client.mu",
+	"Server.sessions":                 "Server.mu",
+	"ServerSession.listenIDs":         "ServerSession.mu",
+	"ServerSession.supportedVersions": "ServerSession.mu",
+	"ioConn.outgoingBatch":            "ioConn.writeMu",
 }
 
 // guardedMapExempt: "<function>:<field>" → reason an unlocked access is in order.
@@ -623,7 +629,7 @@ func rulesC05(c *Ctx) {
 		c.goroutineRules([]string{pJ, pM})
 	})
 
-	c.Rule("R-C05-15", "no unsynchronised map access (a concurrent map read/write is a fatal error, not a data race one can survive): every access to a map field of a mutex-carrying SDK struct holds the mutex that guards that field (table below, confirmed by reading), except in the function that allocated the struct", func() {
+	c.Rule("R-C05-15", "no unsynchronised access to shared maps and slices (a concurrent map read/write is a fatal error, a torn slice header an out-of-range panic): every access to a map or slice field listed in the table (fields of mutex-carrying SDK structs, each confirmed by reading) holds the mutex that guards it, except in the function that allocated the struct", func() {
 		// field → guarding lock class (Type.mutexField)
 		guard := map[string]string{}
 		for k, v := range guardedMaps {
@@ -1229,7 +1235,9 @@ func guardedMapAccesses(c *Ctx, rels []string) []mapAccess {
 				if fld == nil || !fld.IsField() {
 					return
 				}
-				if _, isMap := fld.Type().Underlying().(*types.Map); !isMap {
+				_, isMap := fld.Type().Underlying().(*types.Map)
+				_, isSlice := fld.Type().Underlying().(*types.Slice)
+				if !isMap && !isSlice {
 					return
 				}
 				owner := namedOf(f.TypeOf(sel.X))
